@@ -27,7 +27,8 @@ namespace OPM.C18
 open OPM.ParseLine OPM.Gen.ParseTables
 
 /-- Full statement, line part (holds for the parser with and without the repair): the node built for a
-    rendered well-formed line carries exactly the parts. -/
+    rendered well-formed line carries exactly the parts; the typed threshold (`node.threshold`) is the number
+    its digits denote (`Threshold.value`). -/
 theorem line_decomposes (fx : Bool) (uod : List String) (p : LineParts) (h : p.WF) :
     let nd := parseLine fx uod p.render
     nd.ws = false ∧
@@ -35,6 +36,7 @@ theorem line_decomposes (fx : Bool) (uod : List String) (p : LineParts) (h : p.W
     nd.thr = (match p.thr with
       | some t => t.text
       | none => []) ∧
+    nd.thrVal = p.thr.map Threshold.value ∧
     nd.name = p.name ∧ nd.cls = (createNode uod (String.ofList p.name)).cls ∧
     nd.args = p.arg.getD [] ∧ nd.hasArg = p.arg.isSome ∧
     nd.hasComment = p.comment.isSome ∧
@@ -44,7 +46,7 @@ theorem line_decomposes (fx : Bool) (uod : List String) (p : LineParts) (h : p.W
   intro nd
   have : nd = p.node fx uod := parseLine_render fx uod p h
   rw [this]
-  exact ⟨rfl, rfl, rfl, rfl, rfl, rfl, rfl, rfl, rfl, rfl⟩
+  exact ⟨rfl, rfl, rfl, rfl, rfl, rfl, rfl, rfl, rfl, rfl, rfl⟩
 
 /-- …and the raw groups: the name group keeps the white space in front of a comment, the argument group the
     white space after the argument; a condition is parsed from the raw argument group. -/
@@ -63,11 +65,12 @@ theorem line_raw_groups (fx : Bool) (uod : List String) (p : LineParts) (h : p.W
   exact ⟨rfl, rfl, rfl⟩
 
 /-- Full statement, condition part (repaired parser), for every operator list that is ordered longest first:
-    tag, operator, value and unit are recovered. -/
+    tag, operator, value and unit are recovered, and the typed value (`tag_value_numeric`) is the number the
+    value text denotes (`Num.value`: sign, digits read positionally, exponent); a text value has none. -/
 theorem condition_decomposes (ops : List (List Char)) (hops : OpsOK ops) (p : CondParts) (h : p.WF ops) :
     parseCond true ops p.render =
       { op := p.op, lhs := p.tag, rhs := p.value.render, tagName := some p.tag,
-        tagValue := some p.value.valueText, tagUnit := p.value.unitText, error := false } :=
+        tagValue := some p.value.valueText, tagUnit := p.value.unitText, error := false, tagNumeric := p.value.numeric } :=
   parseCond_render ops hops p h
 
 /-- the operator lists of the node classes (regenerated from ast.py) -/
@@ -97,7 +100,7 @@ theorem condition_line_decomposes (uod : List String) (p : LineParts) (h : p.WF)
     (hcp : cp.WF (ops.map String.toList)) :
     (parseLine true uod p.render).cond =
       some { op := cp.op, lhs := cp.tag, rhs := cp.value.render, tagName := some cp.tag,
-             tagValue := some cp.value.valueText, tagUnit := cp.value.unitText, error := false } := by
+             tagValue := some cp.value.valueText, tagUnit := cp.value.unitText, error := false, tagNumeric := cp.value.numeric } := by
   have h3 := (line_raw_groups true uod p h).2.2
   have h2 := (line_raw_groups true uod p h).2.1
   rw [h3, h2, hk, harg]
@@ -127,7 +130,10 @@ example : String.ofList sampleLine.render = "    12.5 Watch: Run Counter >= -10.
 
 example : (parseLine true [] sampleLine.render).cond =
     some ⟨">=".toList, "Run Counter".toList, "-10.52e+3 mL/min".toList, some "Run Counter".toList,
-          some "-10.52e+3".toList, some "mL/min".toList, false⟩ := by decide +kernel
+          some "-10.52e+3".toList, some "mL/min".toList, false, some ⟨-1052, 1⟩⟩ := by decide +kernel
+
+example : (parseLine true [] sampleLine.render).thrVal = some ⟨125, -1⟩ ∧ digitsVal "1205".toList = 1205 ∧
+    digitsVal "٣٤".toList = 34 := by decide +kernel
 
 example : (parseLine true [] sampleLine.render).thr = "12.5".toList ∧
     (parseLine true [] sampleLine.render).comment = "note # 2".toList := by decide +kernel
@@ -138,7 +144,7 @@ example : (Value.text "2 of 3".toList).WF ∧ (Value.text "0,98".toList).WF ∧ 
   refine ⟨?_, ?_, ?_, ?_⟩ <;> exact ⟨by decide +kernel, by decide +kernel, by decide +kernel⟩
 
 example : parseCond true condOps "Foo == 2 of 3".toList =
-    ⟨"==".toList, "Foo".toList, "2 of 3".toList, some "Foo".toList, some "2 of 3".toList, none, false⟩ ∧
+    ⟨"==".toList, "Foo".toList, "2 of 3".toList, some "Foo".toList, some "2 of 3".toList, none, false, none⟩ ∧
     (parseCond true condOps "Foo > 0,98".toList).tagValue = some "0,98".toList ∧
     (parseCond true condOps "Foo == 1st pass".toList).tagValue = some "1st pass".toList := by decide +kernel
 
@@ -151,14 +157,15 @@ theorem text_value_by_first_char (t : List Char)
 
 theorem asis_number_tail_taken_as_unit :
     parseCond false condOps "X > 52".toList =
-      ⟨">".toList, "X".toList, "52".toList, some "X".toList, some "5".toList, some "2".toList, false⟩ ∧
+      ⟨">".toList, "X".toList, "52".toList, some "X".toList, some "5".toList, some "2".toList, false, some ⟨5, 0⟩⟩ ∧
     (parseCond false condOps "X > 5e3".toList).tagUnit = some "e3".toList ∧
     (parseCond false condOps "X > 0.3".toList).tagValue = some "0.".toList := by decide +kernel
 
 /-- hence the condition statement is false for the parser as it was -/
 theorem asis_violates_condition_statement :
     ¬ (∀ (p : CondParts), p.WF condOps → parseCond false condOps p.render =
-        ⟨p.op, p.tag, p.value.render, some p.tag, some p.value.valueText, p.value.unitText, false⟩) := by
+        ⟨p.op, p.tag, p.value.render, some p.tag, some p.value.valueText, p.value.unitText, false,
+         p.value.numeric⟩) := by
   intro h
   have hwf : (⟨['X'], [' '], ['>'], [' '], .num ⟨[], ['5', '2'], none, none⟩ none, []⟩ : CondParts).WF condOps := by
     refine ⟨by decide, by decide, by decide, by decide, by decide, by decide, ?_⟩
@@ -168,7 +175,7 @@ theorem asis_violates_condition_statement :
   decide +kernel
 
 example : parseCond true condOps "X > 52".toList =
-    ⟨">".toList, "X".toList, "52".toList, some "X".toList, some "52".toList, none, false⟩ := by decide +kernel
+    ⟨">".toList, "X".toList, "52".toList, some "X".toList, some "52".toList, none, false, some ⟨52, 0⟩⟩ := by decide +kernel
 
 /-! Units.  The unit class of the grammar is `[a-zA-Z%/23*]`; three supported units fall outside it.
 Recorded finding (findings.d/C18.json, key `supported-unit-not-recognised`): `C18_full` is the clause "all
